@@ -170,10 +170,10 @@ FIXED = [
 def gen_cases(rng, tier):
     """list of (case_line, kind, depth_or_None)"""
     q = tier == "quick"
-    n_docs = 250 if q else 4000
+    n_docs = 250 if q else 12000
     n_mut_per_doc = 10 if q else 14
-    n_frag = 3000 if q else 60000
-    n_small, n_mid, n_big = (1500, 80, 6) if q else (40000, 1500, 60)
+    n_frag = 3000 if q else 200000
+    n_small, n_mid, n_big = (1500, 80, 6) if q else (120000, 4000, 150)
     cases = []
     for e, t in FIXED:
         cases.append((e + " " + ig.hx(t), "fixed", None))
